@@ -106,7 +106,7 @@ func runRobustLex(rc *RunCtx) *Violation {
 	delims := runDelims(rc.seed)
 	maxSessions := 1
 	if simrt.Choose(4) == 1 {
-		maxSessions = 2 + simrt.Choose(3)
+		maxSessions = 2 + simrt.Choose(bound(3, 6))
 		rc.probe("several lexers of one definition, opened at different times and alternated")
 	}
 	var sessions []*lexSession
@@ -313,7 +313,7 @@ var churnTemplates = map[string]string{
 // lexChurn reuses ONE definition over a long history of short inputs with pairwise distinct
 // captured texts (hundreds of distinct cache keys), the way a long-lived process does.
 func lexChurn(rc *RunCtx, def lexer.Definition, defName, tmpl string) *Violation {
-	n := 100 + simrt.Choose(500)
+	n := 100 + simrt.Choose(bound(500, 1500))
 	rc.probe("long history on one definition (hundreds of distinct back-reference expansions)")
 	var result *Violation
 	simrt.RunInline(func() {
